@@ -1,10 +1,14 @@
 #!/bin/bash
-# tools/seedregress.sh — run every archived seeded change against its property's quick check; all must exit 1.
+# tools/seedregress.sh [i/n] — run every archived seeded change (or shard i of n) against its property's quick
+# check; all must exit 1. MUTEST_TRIM defaults to 1 (trim the build caches between runs: only safe when nothing
+# else builds at the same time); run shards in parallel with MUTEST_TRIM=0.
 cd /verif
-export MUTEST_TRIM=1
-fail=0
+export MUTEST_TRIM=${MUTEST_TRIM:-1}
+SH=${1:-0/1}; SI=${SH%/*}; SN=${SH#*/}
+fail=0; k=0
 for d in seeded/*/; do
   n=$(basename $d)
+  k=$((k+1)); [ $((k % SN)) = "$SI" ] || continue
   if grep -q '"not_observable_on_a_chain": true' $d/meta.json 2>/dev/null; then echo "$n skipped (not observable under transaction semantics)"; continue; fi
   id=$(python3 -c "
 import json;m=json.load(open('$d/meta.json'));c=m.get('check_exit_codes') or {}
